@@ -3,7 +3,9 @@
 set -e
 cd /verif
 export CARGO_NET_OFFLINE=true
+mkdir -p target/c20 protocheck/src/gen
+python3 tools/extract_schema.py initia /repo/packages/initia-proto/src target/c20/current_schema.json protocheck/src/gen/dispatch.rs initia_proto
 cargo build --release --offline 2>&1 | tail -3
-cargo build --release --offline --features miniwasm --target-dir /verif/target-mw 2>&1 | tail -3
+cargo build --release --offline -p harness --features miniwasm --target-dir /verif/target-mw 2>&1 | tail -3
 ./target/release/harness selftest
 ./target-mw/release/harness selftest
